@@ -20,6 +20,7 @@ RULE = (
     "(list[int], tuple[int, ...], dict[str, int]): accepted => some expansion binds, rejected => no expansion "
     "taking >=1 element from every star-argument binds. Non-trivial = call using >=2 argument sources or "
     "reaching a parameter that could be filled two ways (distinct by header+call text)."
+    ' A methods mode binds every header with <= 2 (thorough 3) parameters as instance / static / class method of a base class through 10 receiver routes (instance, subclass instance, subclass, module-level subclass instance, self.sm() inside a subclass method).'
 )
 ASSUMPTIONS = [
     "CPython's binding is observed by calling `def f(...): pass`; a TypeError can only come from binding",
